@@ -22,7 +22,7 @@ import (
 )
 
 type c14Case struct {
-	Family    string  `json:"family"`    // value | throw | syntax | loop | slow
+	Family    string  `json:"family"`    // value | throw | syntax | loop | slow | recursion
 	Variant   int     `json:"variant"`   // which template
 	Placement string  `json:"placement"` // run | action | condition
 	Source    string  `json:"source"`    // control | default | off
@@ -33,7 +33,7 @@ type c14Case struct {
 
 func genC14(t *rapid.T) c14Case {
 	var c c14Case
-	c.Family = rapid.SampledFrom([]string{"value", "value", "throw", "syntax", "loop", "loop", "slow"}).Draw(t, "family")
+	c.Family = rapid.SampledFrom([]string{"value", "value", "throw", "syntax", "loop", "loop", "slow", "recursion"}).Draw(t, "family")
 	c.Variant = rapid.IntRange(0, 5).Draw(t, "variant")
 	c.Placement = rapid.SampledFrom([]string{"run", "action", "condition", "condition-not"}).Draw(t, "placement")
 	c.Source = rapid.SampledFrom([]string{"control", "control", "default", "off", "locoff"}).Draw(t, "source")
@@ -41,6 +41,12 @@ func genC14(t *rapid.T) c14Case {
 		c.Source = "control"
 	}
 	c.LimitMs = rapid.SampledFrom([]int{20, 50, 100, 200}).Draw(t, "limit")
+	if c.Family == "recursion" {
+		// runaway recursion under short limits, under the shipped default
+		// of 60 s and with timeouts disabled: the timeout cannot be what
+		// saves the process
+		c.LimitMs = rapid.SampledFrom([]int{20, 200, 60000}).Draw(t, "reclimit")
+	}
 	c.X = float64(rapid.IntRange(-3, 9).Draw(t, "x"))
 	c.S = rapid.SampledFrom([]string{"a", "bc", ""}).Draw(t, "s")
 	return c
@@ -89,9 +95,18 @@ func (c c14Case) script() (code string, want interface{}) {
 		case 1:
 			return "var i = 0; for (;;) { i++; }", nil
 		case 2:
-			return "function f(n) { return f(n + 1) + 1; } f(0)", nil
+			return "var q = 1; do { q = -q; } while (q != 0)", nil
 		default:
 			return "var n = 0; while (n >= 0) { n = (n + 1) % 1000; }", nil
+		}
+	case "recursion":
+		switch c.Variant % 3 {
+		case 0:
+			return "function f(n) { return f(n + 1) + 1; } f(0)", nil
+		case 1:
+			return "function a(n) { return b(n + 1); } function b(n) { return a(n) + x; } a(0)", nil
+		default:
+			return "var o = {}; o.m = function() { return [1].map(function(e) { return o.m(); }); }; o.m()", nil
 		}
 	default: // slow but finishing well within the limit
 		if c.Source == "off" || c.Source == "locoff" {
@@ -110,13 +125,13 @@ func (c c14Case) script() (code string, want interface{}) {
 
 func runC14(c c14Case) *vlib.Outcome {
 	o := &vlib.Outcome{}
-	if c.LimitMs <= 0 || c.LimitMs > 1000 {
+	if c.LimitMs <= 0 || (c.LimitMs > 1000 && c.Family != "recursion") || c.LimitMs > 60000 {
 		o.Discard = true
 		return o
 	}
 	code, want := c.script()
 	limit := time.Duration(c.LimitMs) * time.Millisecond
-	if c.Family != "loop" && c.Source != "off" && c.Source != "locoff" {
+	if c.Family != "loop" && c.Family != "recursion" && c.Source != "off" && c.Source != "locoff" {
 		// Scripts that are expected to finish get a generous limit: on a
 		// busy machine a few milliseconds of script can take much longer,
 		// and being stopped then is not a defect.  (The short limits are
@@ -124,7 +139,7 @@ func runC14(c c14Case) *vlib.Outcome {
 		limit = 5 * time.Second
 	}
 	desc := fmt.Sprintf("%s script %q as %s with timeout %v from %s", c.Family, code, c.Placement, limit, c.Source)
-	if c.Family == "loop" || c.Family == "slow" || c.Family == "value" {
+	if c.Family == "loop" || c.Family == "slow" || c.Family == "value" || c.Family == "recursion" {
 		o.NonTrivial = true
 	}
 
@@ -235,6 +250,11 @@ func runC14(c c14Case) *vlib.Outcome {
 	if c.Source == "off" || c.Source == "locoff" {
 		hard = 10 * time.Second
 	}
+	if c.Family == "recursion" && hard > 20*time.Second {
+		// runaway recursion ends in an error of its own (or kills the
+		// process, which the runner sees) long before a 60 s limit
+		hard = 20 * time.Second
+	}
 	select {
 	case <-done:
 	case <-time.After(hard):
@@ -256,6 +276,19 @@ func runC14(c c14Case) *vlib.Outcome {
 		}
 		if elapsed > limit+time.Second {
 			o.Label("slow-stop>1s")
+		}
+	case "recursion":
+		// stopped by the timeout or by an error of its own, whichever
+		// comes first: an error on its node either way, and the process
+		// is still there
+		if res.err == nil || res.complete {
+			o.Fail("ERROR_REPORTED_AS_SUCCESS", "%s: runaway recursion was reported as success (value %v, complete %v)", desc, res.value, res.complete)
+		}
+		if strings.HasPrefix(c.Placement, "condition") && res.ranAfter {
+			o.Fail("ACTION_RAN_AFTER_FAILED_CONDITION", "%s: the action ran although the condition script failed", desc)
+		}
+		if limit >= time.Second {
+			o.Label("recursion-under-long-limit")
 		}
 	case "throw", "syntax":
 		if c.Family == "syntax" && strings.HasPrefix(c.Placement, "condition") {
